@@ -159,6 +159,34 @@ func c04Oracle(sp *Spec, x *X, res *mcrt.Result) (string, string) {
 	if k != "" {
 		return k, d
 	}
+	{
+		// a bar that was added and is never drawn at all, although some frame drawn after its Add had room left
+		height := 80
+		if sp.Width > 0 {
+			height = sp.Width
+		}
+		if sp.Pty {
+			height = sp.TermH - 1
+		}
+		shown := map[int]bool{}
+		room := map[int]bool{}
+		for _, wr := range writes {
+			f := ParseFrame(OutWrite{Data: strings.ReplaceAll(wr.Data, "\r\n", "\n")})
+			for _, id := range f.BarIDs() {
+				shown[id] = true
+			}
+			for b := range sp.Bars {
+				if _, ret, ok := addRet(x, b); ok && wr.Step > 0 && ret < x.CycleStartOf(wr.Step) && len(f.Rows) < height {
+					room[b] = true
+				}
+			}
+		}
+		for b, bs := range sp.Bars {
+			if room[b] && !shown[b] && bs.After == 0 {
+				return "bar-never-shown", fmt.Sprintf("bar %d was added, frames with fewer than %d rows were drawn afterwards, and it never appeared", b, height)
+			}
+		}
+	}
 	if sp.Pop {
 		// popped bars in the order of finishing (first terminal frame); ties either way
 		first := map[int]int{}
